@@ -1056,6 +1056,9 @@ def run(chk):
         got = [inl_u.render(x, roles={up: "S"}) for x in stmt_list(br) if x["k"] != "Decl"]
     tr_clause("update_udq:scalar", uu, got == ["this.update($S.name(), $S[0].value().value_or(this.udq_undefined))"], got, "update(name, first element's value or the undefined value)")
 
+    from verif import fallthrough
+    fallthrough.run(chk, "C09", floor=40)
+
     chk.assumptions += [
         "the mnemonic grammar in rules/C09.py encodes the documented Eclipse naming of summary vectors",
         "tables/c09_rate_units.json: phase -> unit pairing confirmed by reading",
